@@ -195,6 +195,14 @@ func faultErr(f hx.Fault) error {
 			es = append(es, e)
 		}
 		return fmt.Errorf("while resolving: %w", es)
+	case "lext":
+		// an error that was located in some other text (the resolver parsed a value of its own, say):
+		// its line and column mean nothing in the request
+		e := &ggql.Error{Base: errInjected, Line: 1000 + f.N, Column: 900 + f.N, Extensions: map[string]interface{}{"code": "E43"}}
+		if f.N%2 == 1 {
+			return fmt.Errorf("resolver context: %w", e)
+		}
+		return e
 	case "ext":
 		return &ggql.Error{Base: errInjected, Extensions: map[string]interface{}{"code": "E42", "a \"quoted\" key": []interface{}{int64(1), "x"}}}
 	}
